@@ -207,6 +207,28 @@ type Params struct {
 	Third      int      `json:"third"` // >= 0: a third thread runs this op
 	Shared     bool     `json:"shared"`
 	MaxTouches int      `json:"max_touches"`
+	// Big: the inputs are samples of the standard's sizes (10^6 bits, and 2^20 bits), where an implementation
+	// may switch to a chunked / parallel / cached path; every op is first repeated alone, then paired with itself
+	Big bool `json:"big,omitempty"`
+}
+
+// BigInputs: two different 10^6-bit samples and one of 2^20 bits, each a window of a larger buffer.
+func BigInputs(seed uint64) [][]byte {
+	a := enum.FillerBytes(125000, seed+11)
+	b := enum.FillerBytes(125000, seed+12)
+	for i := range b {
+		if i%5 == 0 {
+			b[i] |= 0x18
+		}
+	}
+	c := enum.FillerBytes(131072, seed+13)
+	out := [][]byte{a, b, c}
+	for i, in := range out {
+		back := make([]byte, len(in)+spare)
+		copy(back, in)
+		out[i] = back[:len(in)]
+	}
+	return out
 }
 
 // Handle is the sub-process entry (instrumented build).
@@ -218,6 +240,9 @@ func Handle(t e1.Task) (*e1.Result, map[uint64]struct{}) {
 	}
 	ops := Ops()
 	inputs := Inputs(1)
+	if p.Big {
+		inputs = BigInputs(1)
+	}
 	bitsIn := make([][]bool, len(inputs))
 	for i := range inputs {
 		bitsIn[i] = bitsWindow(inputs[i])
@@ -271,6 +296,14 @@ func Handle(t e1.Task) (*e1.Result, map[uint64]struct{}) {
 		want := make([][]float64, len(opIdx))
 		for k := range opIdx {
 			want[k] = get(opIdx[k], inIdx[k])
+		}
+		if p.Big {
+			// repeated alone on the same data: bit-identical
+			var again []float64
+			if pv := common.Catch(func() { again = ops[opIdx[0]].F(inputs[inIdx[0]], bitsIn[inIdx[0]]) }); pv != nil || !same(again, want[0]) {
+				total.Found = &explore.Found{Violation: fmt.Sprintf("%s on a %d-byte sample: the second call returned %v, the first %v (panic=%v)", ops[opIdx[0]].Name, len(inputs[inIdx[0]]), short(again), short(want[0]), pv)}
+				break
+			}
 		}
 		inSums := make([][20]byte, len(inputs))
 		bitSums := make([][20]byte, len(inputs))
@@ -630,6 +663,20 @@ func Run(ctx *common.Ctx) int {
 			tasks = append(tasks, e1.Task{Check: "C18", Name: fmt.Sprintf("c18/conc3/third=%d/chunk%d", third, c), Params: pp, Bound: b3, NShards: 1})
 		}
 	}
+	// samples of the standard's sizes: each registry runner repeated alone and paired with itself on two different
+	// 10^6-bit samples and on the same one (quick: without linear complexity, 1 s per call; thorough: all, and the rounds)
+	for a := 0; a < NRegistryOps; a++ {
+		if quick && (a == 12 || a == 15 || a == 16) {
+			continue
+		}
+		for _, shared := range []bool{false, true} {
+			if shared && (quick || a == 12 || a == 15) {
+				continue
+			}
+			pp, _ := json.Marshal(Params{Mode: "conc", Pairs: [][2]int{{a, a}}, Third: -1, Shared: shared, MaxTouches: 8, Big: true})
+			tasks = append(tasks, e1.Task{Check: "C18", Name: fmt.Sprintf("c18/big/%s/shared=%v", ops[a].Name, shared), Params: pp, Bound: 1, NShards: 1})
+		}
+	}
 	ctx.Printf("C18: %d tasks; package-level variables %v; touches inserted %d\n", len(tasks), pre, info.Counts["touch"])
 	m := e1.RunTasks(ctx, info.Bin, tasks, 0, false)
 	var samples []interface{}
@@ -669,7 +716,7 @@ func Run(ctx *common.Ctx) int {
 		"distinct_nontrivial":           maxInt(len(pairs), 2),
 		"samples":                       samples,
 		"rule": "sequential: breadth-first search over operation sequences; state = deep dump of every package-level variable of randomness, fft and detect (list generated from the AST at check time) plus hashes of the shared inputs; every operation must repeat its initial-state result bit for bit and leave the inputs unchanged (depth 1 closes the search when every operation is a self-loop, depth 3 otherwise); " +
-			"concurrent: 2 (3) controlled threads, one call each, all ordered pairs of the 17 registry-level operations (thorough: all entry points) on a shared and on distinct buffers, every schedule with <= 2 preemptions at the instrumented points (synchronisation operations and accesses to package-level variables); each result must equal its solitary result; race pass: every ordered pair and a 64-goroutine mix free-running under -race",
+			"concurrent: 2 (3) controlled threads, one call each, all ordered pairs of the 17 registry-level operations (thorough: all entry points) on a shared and on distinct buffers, every schedule with <= 2 preemptions at the instrumented points (synchronisation operations and accesses to package-level variables); each result must equal its solitary result; the same for every registry runner paired with itself on 10^6-bit samples (<= 1 preemption); race pass: every ordered pair and a 64-goroutine mix free-running under -race",
 		"package_level_variables":     pre,
 		"touch_points_inserted":       info.Counts["touch"],
 		"max_touch_points_per_thread": maxTouches,
